@@ -118,6 +118,29 @@ class BareBaseGen(BareParentBC, Generic[T]):
 @dataclasses.dataclass
 class BareBaseGen2(BareMixin, Generic[U]):
     c: U
+# plain subclasses: `__orig_bases__` is inherited as an attribute, the class itself uses its generic parent BARE
+@dataclasses.dataclass
+class OBRoot(Generic[T]):
+    x: T
+@dataclasses.dataclass
+class OBMid(OBRoot[int], Generic[T]):
+    x: List[T]                                    # overrides the field of the subscripted grandparent
+    k: T = None
+@dataclasses.dataclass
+class OBPlainChild(OBMid):                     # OBMid bare: x: List[Any], k: Any (not the grandparent's int)
+    pass
+@dataclasses.dataclass
+class OBBareChild(OBRoot):                      # OBRoot bare: x: Any
+    n: int = 0
+@dataclasses.dataclass
+class OBPlainGrandChild(OBPlainChild):
+    pass
+@dataclasses.dataclass
+class OBBoundRoot(Generic[B]):
+    v: B
+@dataclasses.dataclass
+class OBBoundChild(OBBoundRoot):                # bare with a bound: v: int
+    pass
 # type variables inside PEP 604 unions next to builtin generics (types.UnionType annotations)
 @dataclasses.dataclass
 class PipeU(Generic[T]):
@@ -191,6 +214,11 @@ CASES.update({
     "PipeGen_str_int": (PipeGen[str, int], {"x": "int", "y": "opt_list_int", "z": "list_int_or_str", "w": "opt_int"}),
 })
 CASES.update({
+    "OBPlainChild": (OBPlainChild, {"x": "list_any", "k": "any"}),
+    "OBBareChild": (OBBareChild, {"x": "any", "n": "int"}),
+    "OBPlainGrandChild": (OBPlainGrandChild, {"x": "list_any", "k": "any"}),
+    "OBMid_str": (OBMid[str], {"x": "list_str", "k": "str"}),
+    "OBBoundChild": (OBBoundChild, {"v": "int"}),
     "BareBaseChild": (BareBaseChild, {"a": "int", "b": "int_or_str", "m": "str"}),
     "BareBaseGen_str": (BareBaseGen[str], {"a": "int", "b": "int_or_str", "c": "str"}),
     "BareBaseGen_bare": (BareBaseGen, {"a": "int", "b": "int_or_str", "c": "any"}),
@@ -313,7 +341,7 @@ def build(tier, seed):
     m.ob("creation", "x: int", "return not ERR", timeout=30, family="generic hierarchies", bounds="loader and dumper creation for 25 parametrisations")
     cases = ["Child", "Child2_int", "Child2_str", "Child2_list", "Child2_bare", "Mid_str", "Mid_int", "Leaf", "Swap_int_str", "Swap_str_int", "Shadow_int",
              "Shadow_str", "Deep_int", "BoundG_bare", "BoundG_bool", "ConstrG_bare", "ConstrG_str", "Diamond", "Rename_int_str", "PlainOverChild", "PlainOverPlain", "GenericOverPlain_str", "AChild_int_str", "AChild_bare",
-             "NT_int", "NT_str", "TD_int", "TDChild_str_int", "PM_int", "PM_str", "PM2_int_str", "PMChild", "PMGen_str_int", "PMGen_int_str", "PMOpt_int", "PM_bare", "PipeU_int", "PipeU_str", "PipeChild", "PipeGen_str_int", "BareBaseChild", "BareBaseGen_str", "BareBaseGen_bare", "BareBaseGen2_int", "AInitParent_int", "AInitChild", "AInitGen_str", "AInitOwn"]
+             "NT_int", "NT_str", "TD_int", "TDChild_str_int", "PM_int", "PM_str", "PM2_int_str", "PMChild", "PMGen_str_int", "PMGen_int_str", "PMOpt_int", "PM_bare", "PipeU_int", "PipeU_str", "PipeChild", "PipeGen_str_int", "OBPlainChild", "OBBareChild", "OBPlainGrandChild", "OBMid_str", "OBBoundChild", "BareBaseChild", "BareBaseGen_str", "BareBaseGen_bare", "BareBaseGen2_int", "AInitParent_int", "AInitChild", "AInitGen_str", "AInitOwn"]
     for c in cases:
         pyd = c.startswith("PM")
         nf = len(CASE_FIELDS.get(c, range(4)))
